@@ -5,8 +5,9 @@ Model/LinkedList.lean) interpret the same op language (`al …` / `ll …`, desc
 The direct oracle below does not use the Lean model: it replays the case on a Python reference
 (list of byte strings with `None` for unspecified gap elements; list of node names) and checks the
 implementation's own output against it."""
-import itertools
-from lib.core import Case
+import itertools, os
+from lib.core import Case, GenError, write_if_changed, LEAN
+from lib import cbuild
 
 ID = "C09"
 LEAN_MODULES = ["AwsVerif.Props.C09"]
@@ -15,7 +16,16 @@ HARNESS = dict(name="seqs", flavour="asan")
 # P lines also carry bytes of gap elements / never-written storage and stale bytes, which the property does not
 # constrain: the reference oracle below decides what is a concrete violation, any other difference is conformance drift.
 P_DIFF_CONCRETE = False
-TRUSTED = ["hand models lean/AwsVerif/Model/ArrayList.lean, LinkedList.lean (tied by this correspondence run only)",
+# Allocator balance ("P live=<n>" printed by `al balance` at the end of every array-list case, after every list
+# was cleaned up).  The unchanged tree leaks one block in aws_array_list_shrink_to_fit when the list is empty but
+# still has capacity (witness: al init_dyn l0 2 3; al shrink l0; al balance -> P live=1); the model reproduces the
+# count, so the streams agree.  Whether that is a defect to fix in /repo or an observation is the coordinator's
+# decision: with ENFORCE_BALANCE = True (or VERIF_C09_BALANCE=1) the oracle reports every case whose balance is
+# not 0 as a violation.
+ENFORCE_BALANCE = os.environ.get("VERIF_C09_BALANCE", "0") == "1"
+TRUSTED = ["translator gen/cfun.py + gen/arraylist_gen.py (stub functions cut from the text of source/array_list.c: "
+           "calc_necessary_size, growth rule, slice arithmetic; regenerated every run)",
+           "hand models lean/AwsVerif/Model/ArrayList.lean, LinkedList.lean (tied by this correspondence run only)",
            "harness/seqs.c ghost bookkeeping (which node is in which list; fatal-precondition skips)",
            "libc qsort sorts (sort is specified, not modelled: sorted permutation)"]
 ASSUMPTIONS = ["allocator returns fresh blocks and never fails (aws_mem_acquire aborts otherwise); requests above 64 KiB are not issued",
@@ -26,6 +36,21 @@ RULE = ("array-list cases: 1-3 lists (dynamic with initial allocation 0..8 or st
         "1..300 boundary-biased around 128/256, 10-45 ops; linked-list cases: 2-3 lists, 8 nodes, 10-40 ops; plus small-scope "
         "exhaustive enumeration; non-trivial = at least 6 state-changing ops")
 NOT_PROVED = []
+
+
+
+def regen(ctx):
+    """rewrite lean/AwsVerif/Gen/ArrayListFns.lean (and the Gen.Math it calls) from /repo's current source"""
+    from gen import arraylist_gen, math_gen, cfun
+    repo, cfg = cbuild.REPO, cbuild.config_include()
+    try:
+        lean_math, _, meta = math_gen.generate(repo, cfg)
+        text, _ = arraylist_gen.generate(repo, cfg, meta)
+    except cfun.GenError as e:
+        raise GenError(str(e))
+    write_if_changed(os.path.join(LEAN, "AwsVerif", "Gen", "Math.lean"), lean_math)
+    write_if_changed(os.path.join(LEAN, "AwsVerif", "Gen", "ArrayListFns.lean"), text)
+
 
 MAXS = 2 ** 64 - 1
 LIMIT = 65536
@@ -162,6 +187,17 @@ def oracle_al(t, als, L, op):
             return True
         return False
 
+    if name == "balance":
+        for i in range(len(als)):
+            als[i] = None
+        if L.permissive:
+            return
+        g = L.next()
+        if g is None or not g.startswith("P live="):
+            raise Bad(f"{op}: missing allocator balance line, got `{g}`")
+        if ENFORCE_BALANCE and g != "P live=0":
+            raise Bad(f"{op}: allocator balance: {g[7:]} block(s) acquired by the lists are still live after every list was cleaned up")
+        return
     if name in ("init_dyn", "init_static"):
         k, n, isz = int(t[1][1:]), parse_size(t[2]), parse_size(t[3])
         if name == "init_dyn":
@@ -632,6 +668,7 @@ def gen_al_case(rng, maxops):
                 s.ops.append(f"al dump l{k}")
         for k in range(nl):
             s.ops.append(f"al dump l{k}")
+        s.ops.append("al balance")
     return Case(s.ops, {"kind": "al", "isz": isz})
 
 
@@ -747,6 +784,7 @@ def exhaustive_al(depth, init, isz, alpha=AL_ALPHA, sample=None, rng=None):
                 s.vk = (s.vk * 7 + 3) % 50
                 _sim_al(s, _al_resolve(sym, s))
                 s.ops.append("al dump l0")
+            s.ops.append("al balance")
             out.append(Case(s.ops, {"kind": "al", "isz": isz, "exhaustive": True}))
     return out
 
@@ -853,7 +891,8 @@ MANIFEST = dict(
           "stores): the array list refines a reference sequence for every operation sequence and item size, never touches "
           "memory outside its block, static storage never grows, overflowing indices fail without change; the linked list "
           "operations realise the list operations under well-linkedness, backward walk mirrors forward walk, a removed node "
-          "is detached. Tied to /repo by a correspondence run of the compiled models against the real API (ASan/UBSan, "
+          "is detached. calc_necessary_size, the growth rule and the swap slice arithmetic are additionally regenerated from "
+          "array_list.c on every run (gen/arraylist_gen.py) and proved equal to the model's (c09_gen_*). Tied to /repo by a correspondence run of the compiled models against the real API (ASan/UBSan, "
           "canaries around static storage) plus a Python reference oracle and small-scope exhaustive enumeration."),
     note=("Trusted: Lean kernel; hand-written models (tied by correspondence only); harness; libc qsort (sort is modelled as "
           "the sorted permutation). All seven planned theorems are proved in full (NOT_PROVED is empty); theorems hold under "
